@@ -9,7 +9,7 @@ from pathlib import Path
 
 KIND_ANNOTATION = {
     'dict': 'dict', 'list': 'list', 'str': 'str', 'int': 'int', 'numpy': '_np.ndarray', 'frame': '_pd.DataFrame',
-    'generator': '_Gen', 'lazy': '_Gen', 'gen_empty': '_Gen', 'mock': 'object', 'list_numpy': 'list', 'dir': '_tc.DirData', 'memory': '_objs.MemValue',
+    'generator': '_Gen', 'lazy': '_Gen', 'gen_empty': '_Gen', 'mock': 'object', 'continues': '_tcd.ContinuesData', 'list_numpy': 'list', 'dir': '_tc.DirData', 'memory': '_objs.MemValue',
 }
 KIND_DATA_CLASS = {'lazy': '_tcd.GeneratedDataLazy', 'list_numpy': '_tcd.ListOfNumpyData',
                    'mock': '_tc.InMemoryData'}
